@@ -36,7 +36,12 @@ pub struct Obs {
 }
 
 fn build(seed: u64, seq: &[Item]) -> (World, Vec<u8>, usize) {
-    let w = World::boot(WorldCfg { seed, ..Default::default() });
+    // the long runs of small packets are received by a client whose CONNECT announced a Maximum Packet Size of 2048 bytes:
+    // every packet is far below it, however many of them share a read or the receive buffer
+    // ... and every second sequence by a client that announced a limit just above its largest packet (the broker keeps to it)
+    let largest = seq.iter().map(|x| if let Item::Pub(_, n) = x { *n } else { 0 }).max().unwrap_or(0);
+    let own = if seq.len() >= 1000 { Some(2048) } else if seq.len() % 2 == 0 { Some(largest as u32 + 400) } else { None };
+    let w = World::boot(WorldCfg { seed, own_max_packet: own, ..Default::default() });
     build_on(w, seq)
 }
 
